@@ -66,6 +66,8 @@ class Builder:
         self.stmt_budget = 0
         self.preempts = 0
         self.try_kind = None
+        self.helper_try_kind = None
+        self.main_try_kind = None   # when set, every try in @is_you is of this kind (compile-order sensitivity of stop)
 
     # -- drawing helpers ---------------------------------------------------
     def integer(self, lo, hi):
@@ -749,9 +751,38 @@ class Builder:
         if tail is not None:
             # extra statements generated while the block's own scope is still visible
             tail(stmts)
+        if new_scope and not self.in_spec and self.chance(self.size.get('uncond_exit_pct', 8)):
+            # a nested block that never completes normally: the compiler's exit analysis (what follows the enclosing
+            # if/loop/try is reachable or not, implicit returns, block cleanup) only matters for such blocks
+            ex = self.uncond_exit()
+            if ex is not None and not (stmts and isinstance(stmts[-1], (Return, Break, Continue))):
+                stmts.append(ex)
         if new_scope:
             self.scopes.pop()
         return Block(stmts)
+
+    def uncond_exit(self):
+        opts = []
+        if self.cur_func is not None:
+            opts.append((6 if self.cur_func.name != '@is_you' else 2, 'return'))
+        if self.loop_depth > 0:
+            opts += [(3, 'break'), (3, 'continue')]
+        if 'tt' in self.F and (self.in_try or self.flavor == '!'):
+            opts.append((2, 'defeat'))
+        if 'terminal' in self.F:
+            opts.append((1, 'win'))
+        if not opts:
+            return None
+        k = self.weighted(opts)
+        if k == 'return':
+            return Return(None if self.cur_ret == EMPTY else self.coercing(self.cur_ret, 1))
+        if k == 'break':
+            return Break()
+        if k == 'continue':
+            return Continue()
+        if k == 'defeat':
+            return ExprStmt(Call('!is_defeat', [], t=EMPTY))
+        return ExprStmt(Call('all_is_win', [], t=EMPTY))
 
     def matrix_operands(self):
         """(left, right) numeric operands drawn from a kind x kind matrix: the left value has to survive the
@@ -838,6 +869,8 @@ class Builder:
             opts.append((w, 'decl_array'))
         if 'loops' in self.F and self.loop_depth < self.size['loop_nest']:
             opts += [(8, 'for'), (4, 'while')]
+            if self.cur_func is not None:
+                opts.append((self.size.get('search_loop_weight', 3), 'search_loop'))
         if self.loop_depth > 0:
             opts.append((self.size.get('break_weight', 4), 'break_continue'))
         if 'calls' in self.F:
@@ -869,6 +902,8 @@ class Builder:
             return [If(cond, then, els)]
         if k == 'for':
             return self.for_loop()
+        if k == 'search_loop':
+            return self.search_loop()
         if k == 'while':
             return self.while_loop()
         if k == 'break_continue':
@@ -920,7 +955,7 @@ class Builder:
             return [ExprStmt(Call('!truth_is_defeat', [self.defeat_cond()], t=EMPTY))]
         raise AssertionError(k)
 
-    def for_loop(self):
+    def for_loop(self, search=False):
         i = self.fresh('i')
         n = self.integer(0, self.size['loop_iters'])
         iv = Var(i, t=INT)
@@ -932,28 +967,97 @@ class Builder:
                 bound = Len(Var(v.name, t=v.ty), t=INT)
         self.scopes.append([VarInfo(i, INT, frozen=True)])
         self.loop_depth += 1
-        body = self.block(self.integer(1, 3))
+        if search:
+            self.scopes.append([])
+            body = Block(self.search_body_tail())
+            self.scopes.pop()
+        else:
+            body = self.block(self.integer(1, 3))
         self.loop_depth -= 1
         self.scopes.pop()
         step = self.pick([1, 1, 2])
         return [For(Decl(INT, False, i, Lit('int', 0, None, t=INT)), Bin('<', iv, bound, t=BOOL),
                     AugAssign(iv, '+', Lit('int', step, None, t=INT)), body)]
 
-    def while_loop(self):
+    def search_loop(self):
+        """The search idiom: a conditional loop without break whose body never completes in straight-line flow
+        (`if (..) { continue; } return ..;` or just `return ..;`), followed by code that runs when the loop ends
+        through its condition (not found / zero iterations)."""
+        loop = (self.for_loop if self.chance(60) else self.while_loop)(search=True)
+        return loop
+
+    def search_body_tail(self):
+        out = []
+        if self.chance(70):
+            out.append(If(self.cond_expr(), Block(self.probe() + [Continue()]), None))
+        if self.chance(25):
+            c = self.cond_expr()
+            mk = lambda: Block(self.probe() + [Return(None if self.cur_ret == EMPTY else self.coercing(self.cur_ret, 1))])   # noqa
+            out.append(If(c, mk(), mk()))
+        else:
+            out += self.probe()
+            out.append(Return(None if self.cur_ret == EMPTY else self.coercing(self.cur_ret, 1)))
+        return out
+
+    def while_loop(self, search=False):
         c = self.fresh('w')
         n = self.integer(0, self.size['loop_iters'])
         cv = Var(c, t=INT)
         self.declare(VarInfo(c, INT, frozen=True))
         self.loop_depth += 1
-        body = self.block(self.integer(1, 2))
+        if search:
+            self.scopes.append([])
+            body = Block(self.search_body_tail())
+            self.scopes.pop()
+        else:
+            body = self.block(self.integer(1, 2))
         self.loop_depth -= 1
         # decrement first so that `continue` cannot skip it
         body.stmts.insert(0, AugAssign(cv, '-', Lit('int', 1, None, t=INT)))
         return [Decl(INT, False, c, Lit('int', n, None, t=INT)),
                 While(Bin('>', cv, Lit('int', 0, None, t=INT), t=BOOL), body)]
 
+    def fallback_try(self, kind):
+        """`try { T v = !f(..); <use v>; return/break/continue; } undo/stop { .. }`: the body never completes normally and
+        its only source of defeat is a call in expression position; what follows the try runs only through the handler."""
+        fs = [f for ret in (INT, BOOL, BYTE) for f in self.funcs if f.flavor == '!' and f.ret == ret and f is not self.cur_func]
+        if not fs or self.cur_func is None:
+            return None
+        f = self.pick(fs)
+        old = (self.in_try, self.preempts, self.try_kind)
+        self.in_try = True
+        self.preempts = 0
+        self.try_kind = kind
+        self.scopes.append([])
+        v = self.fresh('fv')
+        call = self.call_expr(f, 1)
+        body = []
+        form = self.integer(0, 2)
+        if form == 0:
+            body.append(Decl(f.ret, False, v, call))
+            self.declare(VarInfo(v, f.ret, frozen=True))
+            body += self.probe(Var(v, t=f.ret))
+        elif form == 1:
+            body += self.probe(call)
+        else:
+            body.append(If(Bin('==', Is(call, INT, t=INT) if f.ret != INT else call, self.int_lit(), t=BOOL), Block(self.probe()), None))
+        exits = [Return(None if self.cur_ret == EMPTY else self.coercing(self.cur_ret, 1))]
+        if self.loop_depth > 0:
+            exits += [Break(), Continue()]
+        body.append(self.pick(exits))
+        self.scopes.pop()
+        self.in_try, self.preempts, self.try_kind = old
+        handler = self.block(self.integer(1, 2))
+        return [Try(Block(body), kind, handler)]
+
     def try_stmt(self):
         kind = self.pick(['undo', 'stop'])
+        if self.cur_func is not None and self.main_try_kind is not None:
+            kind = self.main_try_kind if self.cur_func.name == '@is_you' else self.helper_try_kind
+        if 'calls' in self.F and self.chance(self.size.get('fallback_try_pct', 12)):
+            r = self.fallback_try(kind)
+            if r is not None:
+                return r
         old = (self.in_try, self.preempts, self.try_kind)
         self.in_try = True
         self.preempts = 0
@@ -1051,6 +1155,52 @@ class Builder:
         (self.flavor, self.cur_ret, self.cur_func, self.scopes, self.loop_depth, self.in_try, self.preempts) = old
         self.funcs.append(info)
         self.func_nodes.append(Func(ret, name, params, Block(stmts)))
+        return info
+
+    def gen_you_helper(self):
+        """`empty @yhN(int x) { try { ..; <call of a user defeat function>; .. } undo|stop { .. } .. }`: a try in a you
+        function other than @is_you whose body reaches defeat (or not, depending on x) inside a defeat function that
+        other tries of the program share."""
+        name = '@' + self.fresh('yh')
+        info = FuncInfo(name, '@', EMPTY, [Param(INT, False, 'x')])
+        old = (self.flavor, self.cur_ret, self.cur_func, self.scopes, self.loop_depth, self.in_try, self.preempts, self.stmt_budget)
+        self.flavor, self.cur_ret, self.cur_func, self.loop_depth, self.preempts = '@', EMPTY, info, 0, 0
+        self.scopes = [[VarInfo('x', INT, frozen=True)]]
+        self.stmt_budget = 6
+        kind = self.helper_try_kind or self.pick(['undo', 'stop', 'stop'])
+        ds = [f for f in self.funcs if f.flavor == '!']
+        xv = Var('x', t=INT)
+        self.in_try = True
+        self.scopes.append([])
+        body = list(self.probe(Lit('string', ('<%s>' % name[1:]).encode(), None, t=STRING)))
+        for _ in range(self.integer(1, 2)):
+            d = self.pick(ds)
+            args = []
+            first_int = True
+            for p in d.params:
+                if p.ty == INT and first_int and not (d.recursive and p.name == 'depth'):
+                    args.append(xv if self.chance(70) else Bin('-', xv, self.int_lit(), t=INT))
+                    first_int = False
+                else:
+                    args.append(None)
+            call = self.call_expr(d, 1)
+            for i, a in enumerate(args):
+                if a is not None:
+                    call.args[i] = a
+            if d.ret in (INT, BOOL, BYTE) or (d.ret == STRING and 'strings' in self.F):
+                body += self.probe(call)
+            else:
+                body.append(ExprStmt(call))
+        if self.chance(50):
+            body.append(ExprStmt(Call('!truth_is_defeat', [Bin(self.pick(['>', '<', '==']), xv, Lit('int', self.integer(0, 4), None, t=INT), t=BOOL)], t=EMPTY)))
+        body += self.probe()
+        self.scopes.pop()
+        self.in_try = False
+        handler = self.block(self.integer(1, 2))
+        stmts = [Try(Block(body), kind, handler)] + self.probe()
+        (self.flavor, self.cur_ret, self.cur_func, self.scopes, self.loop_depth, self.in_try, self.preempts, self.stmt_budget) = old
+        self.funcs.append(info)
+        self.func_nodes.append(Func(EMPTY, name, [Param(INT, False, 'x')], Block(stmts)))
         return info
 
     def gen_overload_set(self):
@@ -1238,6 +1388,11 @@ class Builder:
         self.mutators = {}
         if 'calls' in self.F and 'globals' in self.F:
             self.gen_mutators()
+        if 'tt' in self.F and self.chance(self.size.get('main_single_kind_pct', 30)):
+            # all tries of @is_you of one kind, all tries of you-helpers of the other: whether a defeat function is
+            # generated before or after the program's first try/stop (or try/undo) depends on the order of references
+            self.main_try_kind = self.pick(['undo', 'undo', 'stop'])
+            self.helper_try_kind = 'stop' if self.main_try_kind == 'undo' else 'undo'
         nfuncs = self.integer(0, self.size['funcs']) if 'calls' in self.F else 0
         for _ in range(nfuncs):
             flavors = [(60, '')]
@@ -1277,6 +1432,10 @@ class Builder:
                 self.gen_func('!')
             if self.chance(50):
                 self.gen_func('!', ret=self.pick([EMPTY, INT]))
+        you_helpers = []
+        if 'tt' in self.F and 'calls' in self.F:
+            for _ in range(self.weighted([(55, 0), (35, 1), (10, 2)])):
+                you_helpers.append(self.gen_you_helper())
         params, vals = self.entry_signature()
         if self.size.get('argv_vla'):
             params = [Param(INT, False, 'vlen')] + [p for p in params if not is_arr(p.ty)][:2]
@@ -1285,6 +1444,13 @@ class Builder:
         self.gen_func('@', name='@is_you', ret=EMPTY, params=params)
         if self.size.get('argv_vla'):
             self.func_nodes[-1].body.stmts.insert(0, Assign(Var('gvl', t=INT), Var('vlen', t=INT)))
+        for h in you_helpers:
+            # called from the top level of @is_you (you context, outside any try) at a drawn position, so that the helper's
+            # try comes before, between or after the tries of @is_you both at run time and in generation order
+            ms = self.func_nodes[-1].body.stmts
+            hi = len(ms) - 1 if ms and isinstance(ms[-1], Return) else len(ms)
+            ms.insert(self.integer(1 if self.size.get('argv_vla') else 0, max(hi, 1 if self.size.get('argv_vla') else 0)),
+                      ExprStmt(Call(h.name, [Lit('int', self.integer(-1, 5), None, t=INT)], t=EMPTY)))
         # dump of all scalar globals at the end of main for observability (in its own
         # function so that locals shadowing globals cannot interfere)
         main = self.func_nodes[-1]
